@@ -10,6 +10,8 @@ is a violation (the expected result of the model is not compared here - that is 
 """
 from __future__ import annotations
 
+import os
+
 from . import c17, gen, replay
 from .common import Check
 
@@ -42,7 +44,7 @@ def check(tier: str) -> int:
                         "time bound: every case finished (no hang) - wall time is reported, not asserted",
                         "TLC, Json/IOUtils modules, CPython"]
     lines = c17.sources(chk, tier)
-    out = SCRATCH / "C02-traces"
+    out = SCRATCH / f"C02-traces-{os.getpid()}"
     shutil.rmtree(out, ignore_errors=True)
     shards = tc.record_sources(lines, out)
     try:
@@ -54,7 +56,7 @@ def check(tier: str) -> int:
             chk.violation(signature(b), b)
     for l in lines[:: max(1, len(lines) // 3)][:3]:
         chk.cov["samples"].append(l)
-    focuses = [("MC_Confused", "confused", {}, 1, 2), ("MC_Flow", "flow", {}, 1, 1),
+    focuses = [("MC_Confused", "confused", {}, 1, 1), ("MC_Flow", "flow", {}, 1, 1),
                ("MC_Loops", "loops-single", {"Variant": '"single"'}, 1, 1),
                ("MC_Scopes", "scopes", {}, 1, 2), ("MC_Sites", "sites", {}, 2, 3), ("MC_Exprs", "exprs", {}, 1, 1)]
     for module, name, consts, q, t in focuses:
